@@ -43,6 +43,35 @@ func (c16) Gen(r *Rng, tier string, emit func(string, Tok)) {
 		}
 		emit("hold-mixed-rewind", L(I(1), scenario{kind: 1, optSize: opt, fault: -1, data: data, ops: append(append(ops, 2), 3)}.tok()))
 	}
+	// SI tables with descriptors of every kind on their standard PIDs (NIT 0x10, SDT 0x11, EIT 0x12, TOT 0x14), several
+	// units per PID so that the scratch buffers are reused while earlier tables are held
+	for k := 0; k < scale(tier, 30, 300); k++ {
+		var d []byte
+		cc := map[uint16]*byte{}
+		for j := r.Range(3, 8); j > 0; j-- {
+			tid, pid := 0, uint16(0)
+			switch r.Intn(4) {
+			case 0:
+				tid, pid = rTidNITa, 0x10
+			case 1:
+				tid, pid = rTidSDTa, 0x11
+			case 2:
+				tid, pid = rTidEIT0, 0x12
+			default:
+				tid, pid = rTidTOT, 0x14
+			}
+			_, bs := psiGenByTid(r, tid)
+			if cc[pid] == nil {
+				c := byte(r.Intn(16))
+				cc[pid] = &c
+			}
+			u := &refUnit{PID: pid, IsPSI: true, Bytes: bs, MinFirst: 1 + int(bs[0]) + 1, TailFF: r.Bool()}
+			for _, p := range packetiseUnit(r, u, 0, cc[pid], false) {
+				d = append(d, p.encode()...)
+			}
+		}
+		emit("hold-si-tables", L(I(1), scenario{kind: r.Intn(3), optSize: 188, fault: -1, chunks: []int{r.Range(1, 400)}, data: d, ops: []int{3}}.tok()))
+	}
 	for k := 0; k < scale(tier, 20, 200); k++ {
 		period, ops := muxHistory(r, tier, r.Range(3, 20))
 		emit("mux-payload", L(I(2), muxCaseTok(period, ops)))
